@@ -22,6 +22,20 @@ COMMUNITY_KW = {'leiden': [dict(), dict(objective_function='modularity')], 'walk
                 'infomap': [dict(), dict(trials=2)]}
 
 
+def steered_kwargs(rng, method, n):
+    """options handed through to igraph that SUGGEST a coarser partition than the components: seed labels shared by all nodes
+    (semi-supervised label propagation), a starting partition with everything in one block refined at resolution 0 (leiden / CPM).
+    The statement holds for them as for the defaults: a cluster never spans two components."""
+    if method == 'label_propagation':
+        initial = [rng.choice([0, 0, 0, 1, -1]) for _ in range(n)]
+        if all(x < 0 for x in initial):
+            initial[0] = 0
+        return dict(initial=initial, fixed=[x >= 0 and rng.random() < 0.8 for x in initial])
+    if method == 'leiden':
+        return dict(objective_function='CPM', resolution=0.0, initial_membership=[rng.choice([0, 0, 0, 1]) for _ in range(n)])
+    return None
+
+
 # ------------------------------------------------------------------ canonical forms
 def partition_of(labels):
     """labelling (one cluster id per node) -> canonical partition: sorted list of sorted node lists."""
@@ -305,6 +319,10 @@ def make_input(kind, cols, rng_perm):
                 'series': lambda: pd.Series(list(xs), index=['r%d' % i for i in rng_perm], dtype=object)}[kind]()
     if kind == 'pair_tuple':
         return (list(cols['CDR3A']), list(cols['CDR3B']))
+    if kind == 'pair_tuple_series':
+        # the two chains held in Series with unrelated indexes (taken from differently indexed tables): paired by POSITION
+        return (pd.Series(list(cols['CDR3A']), index=list(rng_perm), dtype=object),
+                pd.Series(list(cols['CDR3B']), index=['t%d' % i for i in range(len(cols['CDR3B']))], dtype=object))
     df = pd.DataFrame({c: list(v) for c, v in cols.items()})
     df.index = list(rng_perm) if kind == 'table_permuted' else ['t%d' % i for i in rng_perm]
     return df
@@ -665,6 +683,10 @@ def run(ctx):
             ulabels = ['node_%d' % i for i in range(n)]
             for m in COMMUNITY:
                 kw = rng.choice(COMMUNITY_KW.get(m, [dict()]))
+                st = steered_kwargs(rng, m, n) if rng.random() < 0.5 else None
+                if st is not None:
+                    kw = st
+                    ctx.count('community:steered-' + m)
                 ctx.count('community:' + m)
                 ctx.case(nontrivial_key=('community', m, tuple(seqs), k) if nt else None)
                 check_community(ctx, n, adj, ulabels, m, kw, '%s on %s(max_edits=%d), %d sequences' % (m, eng, k, n), seqs)
@@ -694,7 +716,7 @@ def run(ctx):
             cols = tcr_columns(rng, n, which)
             kind = rng.choice(['table_permuted', 'table_strindex'])
             if which == 'AB' and (it // 6) % 4 == 0:
-                kind = 'pair_tuple'
+                kind = 'pair_tuple' if (it // 24) % 2 == 0 else 'pair_tuple_series'
                 cols = {c: cols[c] for c in ('CDR3A', 'CDR3B')}
             elif which == 'AB' and (it // 6) % 4 == 1:
                 metric_spec = (rng.choice(['BetaCdr3Levenshtein', 'AlphaCdr3Levenshtein']), [1, 1, 1])
